@@ -57,7 +57,134 @@ func FactsAtBlock(b *ssa.BasicBlock) []Fact {
 	return out
 }
 
-func FactsAt(in ssa.Instruction) []Fact { return FactsAtBlock(in.Block()) }
+// factGraph: set when a program is loaded; lets FactsAt inherit the facts
+// that hold at every call site of a private helper.
+var factGraph *ModGraph
+
+// FactsAt returns the branch facts that hold at `in`: the local ones, the
+// ones derived by looking through single-return accessor/predicate helpers
+// (`rt.dryRun()` ≡ `rt.Opts.DryRun`), and — for a function all of whose
+// callers are direct calls inside the module — the facts that hold at every
+// one of its call sites (a guard established by the caller before calling a
+// helper). Inherited facts are about the caller's values; predicates that
+// identify values by shape (field loads, accessor calls) see them, predicates
+// that compare with a specific value of the callee do not match them.
+func FactsAt(in ssa.Instruction) []Fact {
+	return factsAtDepth(in, 0, map[*ssa.Function]bool{})
+}
+
+func factsAtDepth(in ssa.Instruction, depth int, seen map[*ssa.Function]bool) []Fact {
+	out := expandFacts(FactsAtBlock(in.Block()))
+	fn := in.Parent()
+	if factGraph == nil || depth >= 3 || fn == nil || seen[fn] {
+		return out
+	}
+	seen[fn] = true
+	defer delete(seen, fn)
+	if fn.Parent() != nil {
+		// a function literal: the facts at its creation site hold when it runs only
+		// if it is called synchronously; that is rule-specific (see Lift), so stop.
+		return out
+	}
+	if o := fn.Object(); o != nil && o.Exported() {
+		return out // callable from outside the module
+	}
+	var inherited []Fact
+	n := 0
+	for _, e := range factGraph.In[fn] {
+		if isTestSupport(pkgPathOfFunc(e.From)) {
+			continue
+		}
+		c, ok := e.Site.(ssa.CallInstruction)
+		if !ok || e.Escape || c.Common().IsInvoke() || c.Common().StaticCallee() != fn {
+			return out // escapes as a value or is called dynamically: callers unknown
+		}
+		if _, isGo := e.Site.(*ssa.Go); isGo {
+			return out
+		}
+		fs := factsAtDepth(e.Site, depth+1, seen)
+		if n == 0 {
+			inherited = fs
+		} else {
+			inherited = intersectFacts(inherited, fs)
+		}
+		n++
+	}
+	if n == 0 {
+		return out
+	}
+	return append(out, inherited...)
+}
+
+// intersectFacts keeps facts of a that have a same-shaped partner in b.
+func intersectFacts(a, b []Fact) []Fact {
+	var out []Fact
+	for _, x := range a {
+		for _, y := range b {
+			if x.Val == y.Val && sameShape(x.Cond, y.Cond, 0) {
+				out = append(out, x)
+				break
+			}
+		}
+	}
+	return out
+}
+
+// sameShape: structural equality of two condition values up to the identity of
+// loads of the same field / calls of the same callee / equal constants.
+func sameShape(a, b ssa.Value, depth int) bool {
+	if a == b {
+		return true
+	}
+	if depth > 6 {
+		return false
+	}
+	switch x := a.(type) {
+	case *ssa.UnOp:
+		y, ok := b.(*ssa.UnOp)
+		if !ok || x.Op != y.Op {
+			return false
+		}
+		if x.Op == token.MUL {
+			_, f1 := loadedField(x)
+			_, f2 := loadedField(y)
+			return f1 != nil && f1 == f2
+		}
+		return sameShape(x.X, y.X, depth+1)
+	case *ssa.BinOp:
+		y, ok := b.(*ssa.BinOp)
+		return ok && x.Op == y.Op && sameShape(x.X, y.X, depth+1) && sameShape(x.Y, y.Y, depth+1)
+	case *ssa.Const:
+		y, ok := b.(*ssa.Const)
+		return ok && ((x.Value == nil && y.Value == nil) || (x.Value != nil && y.Value != nil && x.Value.ExactString() == y.Value.ExactString()))
+	case *ssa.Call:
+		y, ok := b.(*ssa.Call)
+		if !ok || calleeName(x) == "" || calleeName(x) != calleeName(y) || len(x.Common().Args) != len(y.Common().Args) {
+			return false
+		}
+		return true
+	case *ssa.Extract:
+		y, ok := b.(*ssa.Extract)
+		return ok && x.Index == y.Index && sameShape(x.Tuple, y.Tuple, depth+1)
+	}
+	return false
+}
+
+// expandFacts adds, for every fact whose condition is the result of a
+// single-return module helper, the fact about the expression that helper
+// returns (negations normalised).
+func expandFacts(fs []Fact) []Fact {
+	out := fs
+	for _, f := range fs {
+		if _, ok := f.Cond.(*ssa.Call); !ok {
+			continue
+		}
+		if hr := helperResult(f.Cond); hr != f.Cond {
+			out = append(out, normFact(Fact{Cond: hr, Val: f.Val, If: f.If}))
+		}
+	}
+	return out
+}
 
 func lastInstr(b *ssa.BasicBlock) ssa.Instruction {
 	if len(b.Instrs) == 0 {
